@@ -4,6 +4,8 @@
 package main
 
 import (
+	"context"
+	"crypto/tls"
 	"encoding/json"
 	"fmt"
 	"io"
@@ -484,6 +486,224 @@ func receiverScenario(addr string, r *rec, rng *rand.Rand, idx int, overrun bool
 	c.r.ev(map[string]any{"op": "up_quiesce"})
 }
 
+// ---------------------------------------------------------------- the client transport as sender
+// The fork's Transport uploads request bodies to a raw-frame server of the harness, which plays the peer: it announces windows and
+// a maximum frame size, changes them in mid-upload, hands out credit in a seeded random schedule and logs every DATA frame it gets.
+type patternReader struct{ n, off int }
+
+func (p *patternReader) Read(b []byte) (int, error) {
+	if p.off >= p.n {
+		return 0, io.EOF
+	}
+	k := len(b)
+	if k > p.n-p.off {
+		k = p.n - p.off
+	}
+	for i := 0; i < k; i++ {
+		b[i] = byte(p.off + i)
+	}
+	p.off += k
+	return k, nil
+}
+
+func transportScenario(r *rec, rng *rand.Rand, idx int) {
+	r.ev(map[string]any{"op": "reset", "scenario": fmt.Sprintf("tsend-%d", idx)})
+	ln, err := net.Listen("tcp", "127.0.0.1:0")
+	if err != nil {
+		r.notes = append(r.notes, "listen: "+err.Error())
+		return
+	}
+	defer ln.Close()
+	tr := &fphttp2.Transport{AllowHTTP: true, DialTLSContext: func(ctx context.Context, network, addr string, _ *tls.Config) (net.Conn, error) {
+		return net.Dial(network, addr)
+	}}
+	defer tr.CloseIdleConnections()
+	nreq := 1 + rng.Intn(3)
+	sizes := []int{0, 1, 100, 20000, 70000, 200000}
+	done := make(chan error, nreq)
+	for i := 0; i < nreq; i++ {
+		size := sizes[rng.Intn(len(sizes))]
+		known := rng.Intn(2) == 0
+		go func(i, size int) {
+			req, _ := http.NewRequest("POST", "http://"+ln.Addr().String()+"/t", &patternReader{n: size})
+			req.Header.Set("X-Vf-Body", strconv.Itoa(size))
+			if known {
+				req.ContentLength = int64(size)
+			} else {
+				req.ContentLength = -1
+			}
+			resp, err := tr.RoundTrip(req)
+			if err == nil {
+				io.Copy(io.Discard, resp.Body)
+				resp.Body.Close()
+			}
+			done <- err
+		}(i, size)
+		time.Sleep(2 * time.Millisecond) // the requests share one connection (the second dial waits for the first)
+	}
+	ln.(*net.TCPListener).SetDeadline(time.Now().Add(5 * time.Second))
+	conn, err := ln.Accept()
+	if err != nil {
+		r.notes = append(r.notes, "transport never connected: "+err.Error())
+		return
+	}
+	defer conn.Close()
+	conn.SetDeadline(time.Now().Add(40 * time.Second))
+	pre := make([]byte, len(h2raw.Preface))
+	if _, err := io.ReadFull(conn, pre); err != nil || string(pre) != h2raw.Preface {
+		r.notes = append(r.notes, "no client preface from the transport")
+		return
+	}
+	hc := h2raw.NewConn(conn)
+	hc.AutoWU = false
+	c := &client{cl: &stack.Client{Conn: conn}, hc: hc, r: r}
+	opened := map[uint32]bool{}
+	var ids []uint32
+	// server-role logging: request HEADERS open a stream, DATA is what the ledger judges
+	logT := func(f h2raw.RFrame) {
+		switch f.Type {
+		case h2raw.THeaders, h2raw.TContinuation:
+			for sid, rs := range hc.Resp {
+				if !opened[sid] && rs != nil && len(rs.Trailer) > 0 {
+					body := 0
+					for _, h := range rs.Trailer {
+						if h.Name == "x-vf-body" {
+							body, _ = strconv.Atoi(h.Value)
+						}
+					}
+					opened[sid] = true
+					ids = append(ids, sid)
+					r.ev(map[string]any{"op": "open", "s": sid, "body": body, "adv": 0})
+				}
+			}
+		case h2raw.TData:
+			r.ev(map[string]any{"op": "data", "s": f.Stream, "len": len(f.Payload), "end": f.Flags&h2raw.FEndStream != 0})
+		case h2raw.TRSTStream:
+			r.ev(map[string]any{"op": "rst", "s": f.Stream, "code": codeName[f.U32(0)]})
+		case h2raw.TGoAway:
+			r.ev(map[string]any{"op": "goaway", "code": codeName[f.U32(4)]})
+		case h2raw.TSettings:
+			if f.Flags&h2raw.FAck != 0 {
+				r.ev(map[string]any{"op": "initwin_ack"})
+			}
+		}
+	}
+	pn := byte(0)
+	barrier := func() error {
+		pn++
+		conn.Write(h2raw.Ping(false, [8]byte{0xfc, pn}))
+		for {
+			f, err := hc.Step()
+			if err != nil {
+				return err
+			}
+			logT(f)
+			if f.Type == h2raw.TPing && f.Flags&h2raw.FAck != 0 && len(f.Payload) == 8 && f.Payload[0] == 0xfc && f.Payload[1] == pn {
+				return nil
+			}
+		}
+	}
+	settings := func(ss ...h2raw.Setting) error {
+		before := len(hc.Frames)
+		conn.Write(h2raw.Settings(ss...))
+		for _, st := range ss {
+			switch st.ID {
+			case 4:
+				r.ev(map[string]any{"op": "initwin_send", "v": st.Val})
+			case 5:
+				r.ev(map[string]any{"op": "mf_send", "v": st.Val})
+			}
+		}
+		for {
+			for _, f := range hc.Frames[before:] {
+				if f.Type == h2raw.TSettings && f.Flags&h2raw.FAck != 0 {
+					return nil
+				}
+			}
+			before = len(hc.Frames)
+			f, err := hc.Step()
+			if err != nil {
+				return err
+			}
+			logT(f)
+			if f.Type == h2raw.TSettings && f.Flags&h2raw.FAck != 0 {
+				return nil
+			}
+		}
+	}
+	w0 := []uint32{0, 1, 100, 16384, 65535, 100000}[rng.Intn(6)]
+	mf0 := []uint32{16384, 32768, 65536}[rng.Intn(3)]
+	if err := settings(h2raw.Setting{ID: 4, Val: w0}, h2raw.Setting{ID: 5, Val: mf0}, h2raw.Setting{ID: 3, Val: 100}); err != nil {
+		r.notes = append(r.notes, fmt.Sprintf("tsend-%d: %v", idx, err))
+		return
+	}
+	_ = c
+	steps := 6 + rng.Intn(12)
+	for i := 0; i < steps; i++ {
+		if err := barrier(); err != nil {
+			r.notes = append(r.notes, fmt.Sprintf("tsend-%d: %v", idx, err))
+			return
+		}
+		switch k := rng.Intn(10); {
+		case k < 4 && len(ids) > 0:
+			sid := ids[rng.Intn(len(ids))]
+			n := []uint32{1, 50, 5000, 16384, 40000, 70000}[rng.Intn(6)]
+			conn.Write(h2raw.WindowUpdate(sid, n))
+			r.ev(map[string]any{"op": "wu", "s": sid, "n": n, "sure": false})
+		case k < 6:
+			n := []uint32{1, 1000, 20000, 100000}[rng.Intn(4)]
+			conn.Write(h2raw.WindowUpdate(0, n))
+			r.ev(map[string]any{"op": "wu", "s": 0, "n": n, "sure": false})
+		case k < 8:
+			v := []uint32{0, 5, 4000, 65535, 100000}[rng.Intn(5)]
+			if err := settings(h2raw.Setting{ID: 4, Val: v}); err != nil {
+				return
+			}
+		default:
+			v := []uint32{16384, 32768, 65536, 16384}[rng.Intn(4)]
+			if err := settings(h2raw.Setting{ID: 5, Val: v}); err != nil {
+				return
+			}
+		}
+	}
+	// ample credit; everything the requests hold must arrive
+	conn.Write(h2raw.WindowUpdate(0, 1<<24))
+	r.ev(map[string]any{"op": "wu", "s": 0, "n": 1 << 24, "sure": false})
+	if err := settings(h2raw.Setting{ID: 4, Val: 1 << 24}); err != nil {
+		return
+	}
+	deadline := time.Now().Add(15 * time.Second)
+	for time.Now().Before(deadline) {
+		if len(ids) == nreq {
+			all := true
+			for _, sid := range ids {
+				if rs := hc.Resp[sid]; rs == nil || !(rs.Ended || rs.Reset) {
+					all = false
+				}
+			}
+			if all {
+				break
+			}
+		}
+		if err := barrier(); err != nil {
+			r.notes = append(r.notes, fmt.Sprintf("tsend-%d: connection ended before the uploads finished: %v", idx, err))
+			return
+		}
+	}
+	for _, sid := range ids {
+		r.ev(map[string]any{"op": "drained", "s": sid})
+		conn.Write(h2raw.Headers(sid, true, h2raw.Block([]h2raw.HF{{":status", "200"}}), nil, 0))
+	}
+	for i := 0; i < nreq; i++ {
+		select {
+		case <-done:
+		case <-time.After(5 * time.Second):
+			r.notes = append(r.notes, fmt.Sprintf("tsend-%d: a RoundTrip did not finish", idx))
+			return
+		}
+	}
+}
+
 func main() {
 	tracePath, reportPath := os.Args[1], os.Args[2]
 	seed, _ := strconv.ParseInt(os.Getenv("VERIF_SEED"), 10, 64)
@@ -493,6 +713,19 @@ func main() {
 		panic(err)
 	}
 	r := &rec{enc: json.NewEncoder(f)}
+	if os.Getenv("VF_C12_MODE") == "transport" { // the client transport as sender, in a run of its own
+		nt := 12
+		if os.Getenv("VERIF_TIER") == "thorough" {
+			nt = 200
+		}
+		for i := 0; i < nt; i++ {
+			transportScenario(r, rng, i)
+		}
+		f.Close()
+		b, _ := json.Marshal(map[string]any{"events": r.n, "transport_scenarios": nt, "notes": r.notes})
+		os.WriteFile(reportPath, b, 0o644)
+		return
+	}
 	st, err := stack.Start(stack.Options{BackendHandler: http.HandlerFunc(backend)})
 	if err != nil {
 		panic(err)
